@@ -123,6 +123,7 @@ def judge(s, mlines, ilines, verdict, oracle=None):
         if o:
             return "violation", "oracle: " + o
     il = [x for x in ilines if x != "leak"]
+    first_fidelity = None
     for k in range(max(len(mlines), len(il))):
         a = mlines[k] if k < len(mlines) else "<missing>"
         b = il[k] if k < len(il) else "<missing>"
@@ -134,7 +135,10 @@ def judge(s, mlines, ilines, verdict, oracle=None):
         if not vlib.line_equal(a, b):
             is_obs = s.obs[k] if k < len(s.obs) else True
             det = "command %d `%s`: model %s | implementation %s" % (k, s.cmds[k][:120] if k < len(s.cmds) else "?", a[:300], b[:300])
-            return ("violation" if is_obs else "fidelity"), det
+            if is_obs: return "violation", det
+            # a difference on a fidelity-only command: keep looking, a later observation of the property may differ too
+            if first_fidelity is None: first_fidelity = det
+    if first_fidelity: return "fidelity", first_fidelity
     return None, ""
 
 def minimise(s, still_fails, budget=60):
@@ -260,6 +264,15 @@ def generic_check(pid, tier, seed, mod):
                rule=getattr(mod, "RULE", ""), distribution=tagcount,
                samples=[s.cmds[:6] for s in scens[len(load_corpus(pid)):][:3]] or [scens[0].cmds[:6]] if scens else [])
 
+    # a check may bring a further pass of its own (e.g. the same scenarios from several threads at once)
+    xc = getattr(mod, "extra_check", None)
+    extra_viol = None
+    if xc and not viol:
+        try:
+            extra_viol = xc(scens, random.Random(seed + 1), tier, cov)      # None or (replay file body, one-line detail)
+        except vlib.BuildError as be:
+            notes.append("extra pass could not be built: " + str(be)[-300:])
+
     # known findings: replayed, named, not counted
     rc = 0
     out_lines = []
@@ -293,7 +306,11 @@ def generic_check(pid, tier, seed, mod):
         k, _d = judge(sc, mm[0], ii[0][0], ii[0][1], oracle)
         return k == "violation"
 
-    if unknown:
+    if extra_viol and not unknown:
+        p = vlib.write_replay(pid, "violation-seed%d.case" % seed, extra_viol[0])
+        out_lines.append("VIOLATION property=%s replay=%s" % (pid, p))
+        rc = 1; unknown = [(None, extra_viol[1])]
+    elif unknown:
         s, det = unknown[0]
         xfl = extra_flavour.get(id(s))
         try:
